@@ -53,10 +53,26 @@ func replay(k *kase, i int) string {
 	return sb.String()
 }
 
+// debugging aid: `vh c15-example --skip=K-C15-or,C15-plain-gen,…` drops the diffs of these classes / components
+var skip = map[string]bool{}
+
+func addDiff(rep *vh.Report, d vh.Diff) {
+	if !skip[d.Component] && (d.Class == "" || !skip[d.Class]) {
+		rep.AddDiff(d)
+	}
+}
+
 func Run(args []string) {
 	if len(args) > 0 && args[0] == "--child" {
 		tg.ChildMain()
 		return
+	}
+	for _, a := range args {
+		if strings.HasPrefix(a, "--skip=") {
+			for _, c := range strings.Split(a[7:], ",") {
+				skip[c] = true
+			}
+		}
 	}
 	rep := vh.NewReport(command, "(A) random type graphs over 1..3 user types: object / array / alias / or-shortcut / literal bodies, required, optional and nullable references, array items, {type} and {or} rules, key shortcuts (string types with regex / length / enum rules; rarely aliased), enum rules via AddRule, allOf, additionalProperties, rarely or-rules on empty containers; root + every type as its own root; only schemas accepted by Check are examined. (B) plain-JSON schemas (depth <= 4, all literal forms, escaped keys) with random layout, rules and notes. nontrivial = (A) the example builder enters at least one user type, (B) the schema has at least one container")
 	seed := vh.Seed()
@@ -81,7 +97,7 @@ func Run(args []string) {
 		nA := vh.Pick(10000, 300000)
 		for i := 0; i < nA; i++ {
 			r := rand.New(rand.NewSource(seed*1000003 + 1515 + int64(i)*7919))
-			g := c09.RandomGraph(r, 3, c09.Options{Enums: true, OrContainer: true, StringRules: true})
+			g := c09.RandomGraph(r, 3, c09.Options{Enums: true, OrContainer: true, StringRules: true, ManyKeys: true})
 			k := &kase{g: g, roots: []*tg.Node{g.Root}, names: []string{"root"}}
 			req := &tg.Req{Example: true, Rules: c09.EnumRules}
 			req.Schemas = append(req.Schemas, tg.SchemaReq{Name: "root", Text: g.Root.Text()})
@@ -114,12 +130,12 @@ func Run(args []string) {
 func evaluate(rep *vh.Report, k *kase, res tg.Res) bool {
 	if res.Crash != "" {
 		rep.Case(replay(k, 0), true)
-		rep.AddDiff(vh.Diff{Component: "C15-crash", Input: replay(k, 0), Impl: "CRASH " + res.Crash, Model: "no library call may kill the process"})
+		addDiff(rep, vh.Diff{Component: "C15-crash", Input: replay(k, 0), Impl: "CRASH " + res.Crash, Model: "no library call may kill the process"})
 		return true
 	}
 	if res.Timeout {
 		rep.Case(replay(k, 0), true)
-		rep.AddDiff(vh.Diff{Component: "C15-termination", Input: replay(k, 0), Impl: "TIMEOUT", Model: fmt.Sprintf("every call returns within %v", tg.CallDeadline)})
+		addDiff(rep, vh.Diff{Component: "C15-termination", Input: replay(k, 0), Impl: "TIMEOUT", Model: fmt.Sprintf("every call returns within %v", tg.CallDeadline)})
 		return false
 	}
 	if k.plain {
@@ -131,7 +147,7 @@ func evaluate(rep *vh.Report, k *kase, res tg.Res) bool {
 	for i, s := range res.Schemas {
 		root := k.roots[i]
 		if s.AddErr != "" {
-			rep.AddDiff(vh.Diff{Component: "C15-harness", Input: replay(k, i), Impl: s.AddErr, Model: "generated text loads"})
+			addDiff(rep, vh.Diff{Component: "C15-harness", Input: replay(k, i), Impl: s.AddErr, Model: "generated text loads"})
 			return true
 		}
 		if s.Check != "OK" {
@@ -157,6 +173,8 @@ func evaluate(rep *vh.Report, k *kase, res tg.Res) bool {
 				return "K-C15-or"
 			case sm.cutArr:
 				return "K-C15-arraycut"
+			case sm.cutReq:
+				return "K-C15-reqcut"
 			}
 			return ""
 		}
@@ -175,7 +193,7 @@ func evaluate(rep *vh.Report, k *kase, res tg.Res) bool {
 			} else {
 				rep.Stat("fail_" + structural)
 			}
-			rep.AddDiff(d)
+			addDiff(rep, d)
 		}
 		ex := s.Example
 		switch {
@@ -191,10 +209,10 @@ func evaluate(rep *vh.Report, k *kase, res tg.Res) bool {
 		}
 		// correspondence: the builder as coded
 		if sm.err == "" && s.ExErr == "" && string(sm.out) != ex {
-			rep.AddDiff(vh.Diff{Component: "C15-builder-as-coded", Level: "correspondence", Input: replay(k, i), Impl: ex, Model: "replayed builder: " + string(sm.out)})
+			addDiff(rep, vh.Diff{Component: "C15-builder-as-coded", Level: "correspondence", Input: replay(k, i), Impl: ex, Model: "replayed builder: " + string(sm.out)})
 		}
 		if (sm.err != "") != (s.ExErr != "") {
-			rep.AddDiff(vh.Diff{Component: "C15-builder-as-coded", Level: "correspondence", Input: replay(k, i), Impl: "error: " + s.ExErr, Model: "replayed builder error: " + sm.err})
+			addDiff(rep, vh.Diff{Component: "C15-builder-as-coded", Level: "correspondence", Input: replay(k, i), Impl: "error: " + s.ExErr, Model: "replayed builder error: " + sm.err})
 		}
 	}
 	return true
@@ -204,19 +222,19 @@ func evaluatePlain(rep *vh.Report, k *kase, s tg.SchemaRes) {
 	rep.Case(k.text, strings.ContainsAny(k.want, "[{"))
 	if s.Check != "OK" {
 		// the generator only writes legal plain schemas
-		rep.AddDiff(vh.Diff{Component: "C15-plain-gen", Input: replay(k, 0), Impl: "Check: " + s.Check, Model: "generated plain-JSON schema is accepted"})
+		addDiff(rep, vh.Diff{Component: "C15-plain-gen", Input: replay(k, 0), Impl: "Check: " + s.Check, Model: "generated plain-JSON schema is accepted"})
 		return
 	}
 	rep.Stat("plain_accepted")
 	switch {
 	case s.ExErr != "":
-		rep.AddDiff(vh.Diff{Component: "C15-wellformed", Input: replay(k, 0), Impl: "Example() error: " + s.ExErr, Model: "Example returns well-formed JSON"})
+		addDiff(rep, vh.Diff{Component: "C15-wellformed", Input: replay(k, 0), Impl: "Example() error: " + s.ExErr, Model: "Example returns well-formed JSON"})
 	case !json.Valid([]byte(s.Example)):
-		rep.AddDiff(vh.Diff{Component: "C15-wellformed", Input: replay(k, 0), Impl: fmt.Sprintf("Example() = %q", s.Example), Model: "encoding/json.Valid"})
+		addDiff(rep, vh.Diff{Component: "C15-wellformed", Input: replay(k, 0), Impl: fmt.Sprintf("Example() = %q", s.Example), Model: "encoding/json.Valid"})
 	case s.ValEx != "OK":
-		rep.AddDiff(vh.Diff{Component: "C15-self-valid", Input: replay(k, 0), Impl: fmt.Sprintf("Example() = %s ; Validate = %s", s.Example, s.ValEx), Model: "Validate(Example()) == nil"})
+		addDiff(rep, vh.Diff{Component: "C15-self-valid", Input: replay(k, 0), Impl: fmt.Sprintf("Example() = %s ; Validate = %s", s.Example, s.ValEx), Model: "Validate(Example()) == nil"})
 	}
 	if s.ExErr == "" && s.Example != k.want {
-		rep.AddDiff(vh.Diff{Component: "C15-plain-compact", Input: replay(k, 0), Impl: fmt.Sprintf("%q", s.Example), Model: fmt.Sprintf("byte-for-byte the compact form %q", k.want)})
+		addDiff(rep, vh.Diff{Component: "C15-plain-compact", Input: replay(k, 0), Impl: fmt.Sprintf("%q", s.Example), Model: fmt.Sprintf("byte-for-byte the compact form %q", k.want)})
 	}
 }
